@@ -520,6 +520,19 @@ theorem WState.durablyNew {t1 t : FS} {par : Path} {i : Nat} {dk : Dir} {f : Fil
     simp [nodeObj, h.files_i, hdat]
 
 
+theorem WState.quiescent {t1 t : FS} {par : Path} {i : Nat} {dk : Dir} {f : File}
+    (h : WState t1 t par i dk (some f)) (hq : Quiescent t1) (hp : dk.pending = []) (hs : f.synced = true) :
+    Quiescent t := by
+  constructor
+  · intro p d hd
+    by_cases hpp : p = par
+    · subst hpp; rw [h.dirs_par] at hd; cases hd; exact hp
+    · rw [h.dirs_other p hpp] at hd; exact hq.1 p d hd
+  · intro j g hg
+    by_cases hj : j = i
+    · subst hj; rw [h.files_i] at hg; cases hg; exact hs
+    · rw [h.files_other j hj] at hg; exact hq.2 j g hg
+
 theorem tmpName_ne_base (base rnd : Name) : tmpName base rnd ≠ base := by
   intro h
   have := congrArg List.length h
@@ -567,7 +580,9 @@ theorem write_phase (t1 : FS) (par : Path) (base rnd : Name) (data : Bytes) (per
       DurablyNew (par ++ [base]) data (run t1 ((writeFileTrace t1 (par ++ [base]) data perm rnd).1 ++
         immTail (par ++ [base]) t1.next imm)) ∧
       (run t1 ((writeFileTrace t1 (par ++ [base]) data perm rnd).1 ++
-        immTail (par ++ [base]) t1.next imm)).object (par ++ [base]) = some data) := by
+        immTail (par ++ [base]) t1.next imm)).object (par ++ [base]) = some data ∧
+      Quiescent (run t1 ((writeFileTrace t1 (par ++ [base]) data perm rnd).1 ++
+        immTail (par ++ [base]) t1.next imm))) := by
   have hp : d.pending = [] := hq.1 par d hd
   have htmp := tmpName_ne_base base rnd
   have htmp' : ¬ base = tmpName base rnd := fun e => htmp e.symm
@@ -610,6 +625,8 @@ theorem write_phase (t1 : FS) (par : Path) (base rnd : Name) (data : Bytes) (per
     have q7 := h7.oldOrNew base data hS hq hd hfresh (fun x hx => Or.inr (c6 x hx)) (fun _ => ⟨_, rfl, rfl, by simp⟩)
     have d6 := h6.durablyNew base data hS c6 rfl (by simp)
     have d7 := h7.durablyNew base data hS c6 rfl (by simp)
+    have hq6 := h6.quiescent hq rfl rfl
+    have hq7 := h7.quiescent hq rfl rfl
     simp only [RenameOutcome.failed, Bool.false_eq_true, if_false, if_true, List.cons_append, List.nil_append]
     cases imm with
     | false =>
@@ -627,7 +644,7 @@ theorem write_phase (t1 : FS) (par : Path) (base rnd : Name) (data : Bytes) (per
             (.fchmod (par ++ [tmpName base rnd]) t1.next perm)) (.write (par ++ [tmpName base rnd]) t1.next data))
             (.fsync (par ++ [tmpName base rnd]) t1.next)) (.close (par ++ [tmpName base rnd]))) (.lstat (par ++ [base]) existed))
             (.rename (par ++ [tmpName base rnd]) (par ++ [base]) (.file t1.next) true) = _ from step_rename_concat _ _ _ _ _]
-        exact d6
+        exact ⟨d6.1, d6.2, hq6⟩
     | true =>
       simp only [immTail, if_true, List.cons_append, List.nil_append]
       refine ⟨?_, fun _ => ?_⟩
@@ -643,7 +660,7 @@ theorem write_phase (t1 : FS) (par : Path) (base rnd : Name) (data : Bytes) (per
             (.fchmod (par ++ [tmpName base rnd]) t1.next perm)) (.write (par ++ [tmpName base rnd]) t1.next data))
             (.fsync (par ++ [tmpName base rnd]) t1.next)) (.close (par ++ [tmpName base rnd]))) (.lstat (par ++ [base]) existed))
             (.rename (par ++ [tmpName base rnd]) (par ++ [base]) (.file t1.next) true) = _ from step_rename_concat _ _ _ _ _]
-        exact d7
+        exact ⟨d7.1, d7.2, hq7⟩
   | targetIsDir =>
     have h5 := h4.change (tmpName base rnd, none)
     have c5 : ∀ x ∈ cands { d with pending := (d.pending ++ [(tmpName base rnd, some (.file t1.next))]) ++
@@ -1029,7 +1046,9 @@ theorem write_branch (s : FS) (par : Path) (base rnd : Name) (data : Bytes) (per
       DurablyNew (par ++ [base]) data (run s ((st ++ mks) ++ mid ++ (writeFileTrace s (par ++ [base]) data perm rnd).1 ++
         immTail (par ++ [base]) s.next imm)) ∧
       (run s ((st ++ mks) ++ mid ++ (writeFileTrace s (par ++ [base]) data perm rnd).1 ++
-        immTail (par ++ [base]) s.next imm)).object (par ++ [base]) = some data) := by
+        immTail (par ++ [base]) s.next imm)).object (par ++ [base]) = some data ∧
+      Quiescent (run s ((st ++ mks) ++ mid ++ (writeFileTrace s (par ++ [base]) data perm rnd).1 ++
+        immTail (par ++ [base]) s.next imm))) := by
   obtain ⟨hst, hcase⟩ := mkdirAll_spec s hq hwf par.reverse st mks hspec
   simp only [List.reverse_reverse] at hcase
   have hrun_st : run s st = s := run_inert s st hst
@@ -1119,7 +1138,8 @@ theorem upload_atomic_durable (P : Program) (dir : Path) (key data : Bytes) (o :
     SafeAlong (OldOrNew (dir ++ comps) (s.object (dir ++ comps)) data) s (uploadTrace P dir key data o rnd s).1 ∧
     ((uploadTrace P dir key data o rnd s).2 = .ok →
       DurablyNew (dir ++ comps) data (run s (uploadTrace P dir key data o rnd s).1) ∧
-      (run s (uploadTrace P dir key data o rnd s).1).object (dir ++ comps) = some data) := by
+      (run s (uploadTrace P dir key data o rnd s).1).object (dir ++ comps) = some data ∧
+      Quiescent (run s (uploadTrace P dir key data o rnd s).1)) := by
   have hsplit := path_split (dir ++ comps) hne
   generalize hpar : parentOf (dir ++ comps) = par at hsplit
   generalize hbase : baseOf (dir ++ comps) = base at hsplit
@@ -1171,7 +1191,7 @@ theorem upload_atomic_durable (P : Program) (dir : Path) (key data : Bytes) (o :
         refine ⟨safeAlong_inert hin Q0, fun hres => ?_⟩
         rw [run_inert s _ hin]
         have hobj := compareTrace_ok P s _ data hres
-        refine ⟨fun c => ?_, hobj⟩
+        refine ⟨fun c => ?_, hobj, hq⟩
         rw [crash_quiescent c s hq]; exact hobj
       | none =>
         simp only
@@ -1729,5 +1749,410 @@ theorem discard_confined (dir : Path) (key : Bytes) (s : FS) (comps : Path) (hlo
     | some nd =>
       cases nd <;> simp [hloc, hl] at he <;> rcases he with rfl | rfl | rfl | rfl | rfl <;> simp [Sys.paths]
   rw [hall x hx]; exact within_append dir _
+
+
+/-! ## The reachable-state invariant -/
+
+/-- Directory entries (durable or pending) have records, inode numbers in entries are below `next`. -/
+structure Inv (s : FS) : Prop where
+  root : s.dirs [] ≠ none
+  dirRec : ∀ a d n, s.dirs a = some d → some Node.dir ∈ cands d n → s.dirs (a ++ [n]) ≠ none
+  inoLt : ∀ a d n i, s.dirs a = some d → some (Node.file i) ∈ cands d n → i < s.next
+
+theorem Inv.wf {s : FS} (h : Inv s) : WF s :=
+  ⟨h.root, fun a d n hd hn => h.dirRec a d n hd (by simp [cands, hn])⟩
+
+theorem Inv.fresh {s : FS} (h : Inv s) : FreshInodes s :=
+  fun p d n i hd hn => h.inoLt p d n i hd (by simp [cands, hn])
+
+theorem cands_crashDir (mask : List Bool) (d : Dir) (n : Name) :
+    ∀ x ∈ cands (crashDir mask d) n, x ∈ cands d n := by
+  intro x hx
+  simp only [cands, crashDir, List.filter_nil, List.map_nil, List.mem_singleton] at hx
+  subst hx
+  exact applyMask_mem n _ _ _
+
+theorem Inv.crash {s : FS} (h : Inv s) (c : CrashChoice) : Inv (crash c s) := by
+  refine ⟨?_, ?_, ?_⟩
+  · simp only [crash_dirs]
+    cases hr : s.dirs [] with
+    | none => exact absurd hr h.root
+    | some d => simp
+  · intro a d' n hd' hm
+    simp only [crash_dirs] at hd' ⊢
+    cases hd : s.dirs a with
+    | none => simp [hd] at hd'
+    | some d =>
+      simp only [hd, Option.map_some, Option.some.injEq] at hd'
+      subst hd'
+      have := h.dirRec a d n hd (cands_crashDir _ d n _ hm)
+      cases hr : s.dirs (a ++ [n]) with
+      | none => exact absurd hr this
+      | some d2 => simp
+  · intro a d' n i hd' hm
+    simp only [crash_dirs] at hd'
+    cases hd : s.dirs a with
+    | none => simp [hd] at hd'
+    | some d =>
+      simp only [hd, Option.map_some, Option.some.injEq] at hd'
+      subst hd'
+      exact h.inoLt a d n i hd (cands_crashDir _ d n _ hm)
+
+theorem cands_append_pending (d : Dir) (c : Change) (n : Name) :
+    cands { d with pending := d.pending ++ [c] } n = cands d n ++ (if c.1 = n then [c.2] else []) := by
+  simp only [cands, List.filter_append, List.map_append, List.cons_append]
+  by_cases h : c.1 = n <;> simp [h]
+
+/-- Recording a pending change keeps the invariant if the new value is harmless. -/
+theorem Inv.change {s : FS} (h : Inv s) (p : Path) (c : Change)
+    (hdir : c.2 = some .dir → s.dirs (p ++ [c.1]) ≠ none)
+    (hfile : ∀ i, c.2 = some (.file i) → i < s.next) : Inv (s.change p c) := by
+  unfold FS.change
+  cases hd : s.dirs p with
+  | none => exact h
+  | some d =>
+    simp only
+    have hdirs : ∀ q, (s.setDir p { d with pending := d.pending ++ [c] }).dirs q =
+        if q = p then some { d with pending := d.pending ++ [c] } else s.dirs q := fun q => rfl
+    have hne : ∀ q, s.dirs q ≠ none → (s.setDir p { d with pending := d.pending ++ [c] }).dirs q ≠ none := by
+      intro q hq; rw [hdirs]; split <;> simp [hq]
+    refine ⟨hne _ h.root, ?_, ?_⟩
+    · intro a d' n hd' hm
+      rw [hdirs] at hd'
+      apply hne
+      split at hd'
+      · rename_i hap
+        simp only [Option.some.injEq] at hd'
+        subst hd'; subst hap
+        rw [cands_append_pending] at hm
+        rcases List.mem_append.1 hm with hm | hm
+        · exact h.dirRec a d n hd hm
+        · split at hm
+          · rename_i hcn
+            simp only [List.mem_singleton] at hm
+            rw [← hcn]; exact hdir hm.symm
+          · simp at hm
+      · exact h.dirRec a d' n hd' hm
+    · intro a d' n i hd' hm
+      rw [hdirs] at hd'
+      show i < s.next
+      split at hd'
+      · rename_i hap
+        simp only [Option.some.injEq] at hd'
+        subst hd'; subst hap
+        rw [cands_append_pending] at hm
+        rcases List.mem_append.1 hm with hm | hm
+        · exact h.inoLt a d n i hd hm
+        · split at hm
+          · simp only [List.mem_singleton] at hm
+            exact hfile i hm.symm
+          · simp at hm
+      · exact h.inoLt a d' n i hd' hm
+
+
+theorem Inv.of_dirs_eq {s t : FS} (h : Inv s) (hd : t.dirs = s.dirs) (hn : s.next ≤ t.next) : Inv t := by
+  refine ⟨by rw [hd]; exact h.root, ?_, ?_⟩
+  · intro a d n hda hm; rw [hd] at hda ⊢; exact h.dirRec a d n hda hm
+  · intro a d n i hda hm; rw [hd] at hda; exact Nat.lt_of_lt_of_le (h.inoLt a d n i hda hm) hn
+
+theorem Inv.modFile {s : FS} (h : Inv s) (i : Nat) (g : File → File) : Inv (s.modFile i g) := by
+  unfold FS.modFile
+  cases s.files i with
+  | none => exact h
+  | some f => exact h.of_dirs_eq rfl (Nat.le_refl _)
+
+theorem Inv.fsyncDir {s : FS} (h : Inv s) (p : Path) : Inv (step s (.fsyncDir p)) := by
+  simp only [step]
+  cases hd : s.dirs p with
+  | none => exact h
+  | some d =>
+    simp only
+    have hdirs : ∀ q, (s.setDir p { durable := d.vol, pending := [] }).dirs q =
+        if q = p then some { durable := d.vol, pending := [] } else s.dirs q := fun q => rfl
+    have hne : ∀ q, s.dirs q ≠ none → (s.setDir p { durable := d.vol, pending := [] }).dirs q ≠ none := by
+      intro q hq; rw [hdirs]; split <;> simp [hq]
+    have hc : ∀ n x, x ∈ cands { durable := d.vol, pending := [] } n → x ∈ cands d n := by
+      intro n x hx
+      simp only [cands, List.filter_nil, List.map_nil, List.mem_singleton] at hx
+      subst hx; exact vol_mem_cands d n
+    refine ⟨hne _ h.root, ?_, ?_⟩
+    · intro a d' n hd' hm
+      rw [hdirs] at hd'
+      apply hne
+      split at hd'
+      · rename_i hap
+        simp only [Option.some.injEq] at hd'
+        subst hd'; subst hap
+        exact h.dirRec a d n hd (hc n _ hm)
+      · exact h.dirRec a d' n hd' hm
+    · intro a d' n i hd' hm
+      rw [hdirs] at hd'
+      show i < s.next
+      split at hd'
+      · rename_i hap
+        simp only [Option.some.injEq] at hd'
+        subst hd'; subst hap
+        exact h.inoLt a d n i hd (hc n _ hm)
+      · exact h.inoLt a d' n i hd' hm
+
+theorem Inv.mkdir {s : FS} (h : Inv s) (p : Path) (hp : p ≠ []) : Inv (step s (.mkdir p)) := by
+  simp only [step]
+  have h1 : Inv (s.setDir p Dir.empty) := by
+    have hdirs : ∀ q, (s.setDir p Dir.empty).dirs q = if q = p then some Dir.empty else s.dirs q := fun q => rfl
+    have hne : ∀ q, s.dirs q ≠ none → (s.setDir p Dir.empty).dirs q ≠ none := by
+      intro q hq; rw [hdirs]; split <;> simp [hq]
+    refine ⟨hne _ h.root, ?_, ?_⟩
+    · intro a d' n hd' hm
+      rw [hdirs] at hd'
+      split at hd'
+      · simp only [Option.some.injEq] at hd'
+        subst hd'
+        simp [cands, Dir.empty] at hm
+      · exact hne _ (h.dirRec a d' n hd' hm)
+    · intro a d' n i hd' hm
+      rw [hdirs] at hd'
+      show i < s.next
+      split at hd'
+      · simp only [Option.some.injEq] at hd'
+        subst hd'
+        simp [cands, Dir.empty] at hm
+      · exact h.inoLt a d' n i hd' hm
+  apply h1.change
+  · intro _
+    rw [← path_split p hp]
+    simp [FS.setDir]
+  · intro i hi; cases hi
+
+theorem change_next (s : FS) (p : Path) (c : Change) : (s.change p c).next = s.next := by
+  unfold FS.change; cases s.dirs p <;> rfl
+
+theorem Inv.creat {s : FS} (h : Inv s) (p : Path) (i : Nat) : Inv (step s (.creat p i)) := by
+  simp only [step]
+  -- bump `next` first, then record the entry
+  let s1 : FS := { s with files := (s.setFile i { data := [], synced := false, mode := 0o600, immutable := false }).files,
+                          next := Nat.max s.next (i + 1) }
+  have h1 : Inv s1 := h.of_dirs_eq rfl (Nat.le_max_left _ _)
+  have h2 : Inv (s1.change (parentOf p) (baseOf p, some (.file i))) := by
+    apply h1.change
+    · intro hc; cases hc
+    · intro j hj
+      simp only [Option.some.injEq, Node.file.injEq] at hj
+      subst hj
+      exact Nat.lt_of_lt_of_le (Nat.lt_succ_self _) (Nat.le_max_right _ _)
+  refine h2.of_dirs_eq ?_ ?_
+  · simp only [s1, FS.change, FS.setFile]
+    cases s.dirs (parentOf p) <;> rfl
+  · simp only [s1, change_next]; exact Nat.le_refl _
+
+/-- A checker for "this trace keeps the invariant": `lb` is a lower bound of `next`. -/
+def okFrom (lb : Nat) : List Sys → Bool
+  | [] => true
+  | .creat _ i :: tr => okFrom (Nat.max lb (i + 1)) tr
+  | .rename _ _ (.file i) true :: tr => decide (i < lb) && okFrom lb tr
+  | .rename _ _ .dir true :: _ => false
+  | .mkdir p :: tr => !p.isEmpty && okFrom lb tr
+  | _ :: tr => okFrom lb tr
+
+theorem modFile_next (s : FS) (i : Nat) (g : File → File) : (s.modFile i g).next = s.next := by
+  unfold FS.modFile; cases s.files i <;> rfl
+
+theorem step_next_le (s : FS) (e : Sys) : s.next ≤ (step s e).next := by
+  cases e with
+  | rename a b nd ok =>
+    cases ok
+    · exact Nat.le_refl _
+    · simp only [step, change_next]; exact Nat.le_refl _
+  | rmdir p ok =>
+    cases ok
+    · exact Nat.le_refl _
+    · simp only [step, change_next]; exact Nat.le_refl _
+  | mkdir p => simp only [step, change_next]; exact Nat.le_refl _
+  | unlink p => simp only [step, change_next]; exact Nat.le_refl _
+  | fsyncDir p => simp only [step]; split <;> exact Nat.le_refl _
+  | creat p i => simp only [step]; exact Nat.le_max_left _ _
+  | fchmod p i m => simp only [step, modFile_next]; exact Nat.le_refl _
+  | write p i d => simp only [step, modFile_next]; exact Nat.le_refl _
+  | fsync p i => simp only [step, modFile_next]; exact Nat.le_refl _
+  | setImmutable p i on => simp only [step, modFile_next]; exact Nat.le_refl _
+  | _ => exact Nat.le_refl _
+
+theorem step_creat_next (s : FS) (p : Path) (i : Nat) : (step s (.creat p i)).next = Nat.max s.next (i + 1) := rfl
+
+/-- One step keeps the invariant when the checker accepts it. -/
+theorem Inv.step {s : FS} (h : Inv s) (e : Sys) (lb : Nat) (hlb : lb ≤ s.next) (tr : List Sys)
+    (hok : okFrom lb (e :: tr) = true) :
+    Inv (LocalFS.step s e) ∧ ∃ lb', lb' ≤ (LocalFS.step s e).next ∧ okFrom lb' tr = true := by
+  cases e with
+  | creat p i =>
+    exact ⟨h.creat p i, Nat.max lb (i + 1), by
+      rw [step_creat_next]
+      exact Nat.max_le.2 ⟨Nat.le_trans hlb (Nat.le_max_left _ _), Nat.le_max_right _ _⟩, by simpa [okFrom] using hok⟩
+  | mkdir p =>
+    simp only [okFrom, Bool.and_eq_true, Bool.not_eq_true', List.isEmpty_eq_false_iff] at hok
+    exact ⟨h.mkdir p hok.1, lb, Nat.le_trans hlb (step_next_le _ _), hok.2⟩
+  | fsyncDir p => exact ⟨h.fsyncDir p, lb, Nat.le_trans hlb (step_next_le _ _), by simpa [okFrom] using hok⟩
+  | rename a b nd ok =>
+    cases ok with
+    | false => exact ⟨h, lb, hlb, by simpa [okFrom] using hok⟩
+    | true =>
+      cases nd with
+      | dir => simp [okFrom] at hok
+      | file i =>
+        simp only [okFrom, Bool.and_eq_true, decide_eq_true_eq] at hok
+        refine ⟨?_, lb, Nat.le_trans hlb (step_next_le _ _), hok.2⟩
+        simp only [LocalFS.step]
+        apply Inv.change
+        · apply Inv.change h
+          · intro hc; cases hc
+          · intro j hj
+            simp only [Option.some.injEq, Node.file.injEq] at hj
+            subst hj; exact Nat.lt_of_lt_of_le hok.1 hlb
+        · intro hc; cases hc
+        · intro j hj; cases hj
+  | unlink p =>
+    refine ⟨?_, lb, Nat.le_trans hlb (step_next_le _ _), by simpa [okFrom] using hok⟩
+    simp only [LocalFS.step]
+    exact h.change _ _ (by intro hc; cases hc) (by intro j hj; cases hj)
+  | rmdir p ok =>
+    cases ok with
+    | false => exact ⟨h, lb, hlb, by simpa [okFrom] using hok⟩
+    | true =>
+      refine ⟨?_, lb, Nat.le_trans hlb (step_next_le _ _), by simpa [okFrom] using hok⟩
+      simp only [LocalFS.step]
+      exact h.change _ _ (by intro hc; cases hc) (by intro j hj; cases hj)
+  | fchmod p i m => exact ⟨h.modFile _ _, lb, Nat.le_trans hlb (step_next_le _ _), by simpa [okFrom] using hok⟩
+  | write p i d => exact ⟨h.modFile _ _, lb, Nat.le_trans hlb (step_next_le _ _), by simpa [okFrom] using hok⟩
+  | fsync p i => exact ⟨h.modFile _ _, lb, Nat.le_trans hlb (step_next_le _ _), by simpa [okFrom] using hok⟩
+  | setImmutable p i on => exact ⟨h.modFile _ _, lb, Nat.le_trans hlb (step_next_le _ _), by simpa [okFrom] using hok⟩
+  | stat p f => exact ⟨h, lb, hlb, by simpa [okFrom] using hok⟩
+  | openDir p => exact ⟨h, lb, hlb, by simpa [okFrom] using hok⟩
+  | closeDir p => exact ⟨h, lb, hlb, by simpa [okFrom] using hok⟩
+  | openRd p ok => exact ⟨h, lb, hlb, by simpa [okFrom] using hok⟩
+  | read p c n => exact ⟨h, lb, hlb, by simpa [okFrom] using hok⟩
+  | readDir p => exact ⟨h, lb, hlb, by simpa [okFrom] using hok⟩
+  | closeRd p => exact ⟨h, lb, hlb, by simpa [okFrom] using hok⟩
+  | close p => exact ⟨h, lb, hlb, by simpa [okFrom] using hok⟩
+  | lstat p f => exact ⟨h, lb, hlb, by simpa [okFrom] using hok⟩
+  | unlinkFail p => exact ⟨h, lb, hlb, by simpa [okFrom] using hok⟩
+  | setFlagsDir p => exact ⟨h, lb, hlb, by simpa [okFrom] using hok⟩
+
+/-- Every prefix of an accepted trace keeps the invariant. -/
+theorem Inv.run_take {s : FS} (h : Inv s) : ∀ (tr : List Sys) (lb : Nat), lb ≤ s.next → okFrom lb tr = true →
+    ∀ k, Inv (run s (tr.take k)) := by
+  intro tr
+  induction tr generalizing s with
+  | nil => intro lb _ _ k; simpa using h
+  | cons e tr ih =>
+    intro lb hlb hok k
+    cases k with
+    | zero => simpa using h
+    | succ k =>
+      obtain ⟨h', lb', hlb', hok'⟩ := h.step e lb hlb tr hok
+      simpa using ih h' lb' hlb' hok' k
+
+
+def Sys.harmless : Sys → Bool
+  | .creat _ _ => false
+  | .rename _ _ _ true => false
+  | .mkdir p => !p.isEmpty
+  | _ => true
+
+theorem okFrom_append_harmless (lb : Nat) (B : List Sys) : ∀ (A : List Sys), (∀ e ∈ A, e.harmless = true) →
+    okFrom lb (A ++ B) = okFrom lb B := by
+  intro A
+  induction A with
+  | nil => intro _; rfl
+  | cons e A ih =>
+    intro h
+    have he := h e (by simp)
+    have ih' := ih (fun x hx => h x (by simp [hx]))
+    cases e <;> simp_all [okFrom, Sys.harmless]
+    all_goals (rename_i b; cases b <;> simp_all [okFrom, Sys.harmless])
+
+theorem mkdirTrace_harmless (p : Path) (hp : p ≠ []) : ∀ e ∈ mkdirTrace p, e.harmless = true := by
+  rw [mkdirTrace_eq]
+  intro e he
+  simp only [List.mem_cons, List.mem_nil_iff, or_false] at he
+  rcases he with rfl | rfl | rfl | rfl | rfl | rfl | rfl <;> simp [Sys.harmless, hp]
+
+theorem mkdirAllRev_harmless (s : FS) : ∀ rp, ∀ e ∈ (mkdirAllRev s rp).1 ++ (mkdirAllRev s rp).2.1, e.harmless = true := by
+  intro rp
+  induction rp with
+  | nil => simp [mkdirAllRev, Sys.harmless]
+  | cons n rq ih =>
+    intro e he
+    simp only [mkdirAllRev] at he
+    split at he
+    · simp at he; subst he; rfl
+    · simp at he; subst he; rfl
+    · simp only [List.mem_append, List.mem_cons] at he
+      rcases he with (rfl | he) | he
+      · rfl
+      · exact ih e (List.mem_append.2 (Or.inl he))
+      · split at he
+        · rcases List.mem_append.1 he with he | he
+          · exact ih e (List.mem_append.2 (Or.inr he))
+          · exact mkdirTrace_harmless _ (by simp) e he
+        · exact ih e (List.mem_append.2 (Or.inr he))
+
+theorem okFrom_writeFileTrace (s : FS) (path : Path) (data : Bytes) (perm : Nat) (rnd : Name) (tail : List Sys)
+    (ht : ∀ e ∈ tail, e.harmless = true) :
+    okFrom s.next ((writeFileTrace s path data perm rnd).1 ++ tail) = true := by
+  have htail : ∀ lb, okFrom lb tail = true := by
+    intro lb
+    have := okFrom_append_harmless lb [] tail ht
+    simpa [okFrom] using this
+  simp only [writeFileTrace, execOrder, writeFileProgram]
+  cases renameOutcome s path <;>
+    simp [effSys, RenameOutcome.failed, okFrom, htail, Nat.lt_succ_self]
+
+theorem compareTrace_harmless (P : Program) (s : FS) (path : Path) (data : Bytes) :
+    ∀ e ∈ (compareTrace P s path data).1, e.harmless = true := by
+  intro e he
+  unfold compareTrace at he
+  cases hf : s.fileAt path with
+  | none => simp only [hf, List.mem_singleton] at he; subst he; rfl
+  | some f =>
+    simp only [hf, List.mem_map] at he
+    obtain ⟨y, _, rfl⟩ := he
+    rfl
+
+theorem okFrom_uploadTrace (P : Program) (dir : Path) (key data : Bytes) (o : Opts) (rnd : Name) (s : FS) :
+    okFrom s.next (uploadTrace P dir key data o rnd s).1 = true := by
+  cases hloc : localize key with
+  | none => simp [uploadTrace, hloc, okFrom]
+  | some comps =>
+    rw [uploadTrace_fst P dir key data o rnd s comps hloc, okFrom_append_harmless _ _ _ (mkdirAllRev_harmless s _)]
+    unfold uploadRest
+    by_cases hok : (mkdirAllRev s (parentOf (dir ++ comps)).reverse).2.2 = true
+    · by_cases himm : o.immutable = true
+      · cases hl : s.lookup (dir ++ comps) with
+        | none =>
+          simp only [hok, himm, hl, Bool.not_true, Bool.false_eq_true, if_false, if_true]
+          have := okFrom_writeFileTrace s (dir ++ comps) data modeImmutable rnd
+            (if (writeFileTrace s (dir ++ comps) data modeImmutable rnd).2 = .ok then
+              [.openRd (dir ++ comps) true, .setImmutable (dir ++ comps) s.next true, .closeRd (dir ++ comps)] else [])
+            (by intro e he; split at he <;> simp at he; rcases he with rfl | rfl | rfl <;> rfl)
+          simpa [okFrom] using this
+        | some nd =>
+          simp only [hok, himm, hl, Bool.not_true, Bool.false_eq_true, if_false, if_true]
+          have := okFrom_append_harmless s.next [] (Sys.openRd (dir ++ comps) true :: (compareTrace P s (dir ++ comps) data).1 ++
+            (if (compareTrace P s (dir ++ comps) data).2 = .hang then [] else [.closeRd (dir ++ comps)])) (by
+              intro e he
+              simp only [List.mem_append, List.mem_cons] at he
+              rcases he with (rfl | he) | he
+              · rfl
+              · exact compareTrace_harmless P s _ data e he
+              · split at he <;> simp at he; subst he; rfl)
+          simpa [okFrom] using this
+      · simp only [hok, himm, Bool.not_true, Bool.false_eq_true, if_false]
+        have := okFrom_writeFileTrace s (dir ++ comps) data modeDefault rnd [] (by simp)
+        simpa using this
+    · simp [hok, okFrom]
+
+/-- The invariant holds in every state an upload goes through. -/
+theorem upload_inv (P : Program) (dir : Path) (key data : Bytes) (o : Opts) (rnd : Name) (s : FS) (h : Inv s) (k : Nat) :
+    Inv (run s ((uploadTrace P dir key data o rnd s).1.take k)) :=
+  h.run_take _ s.next (Nat.le_refl _) (okFrom_uploadTrace P dir key data o rnd s) k
 
 end LocalFS
